@@ -26,6 +26,10 @@ m = {
         {"name": "lean", "path": "lean", "serves_properties": sorted(PROPS), "kind_free_text": "Lean 4 models, lemmas and property theorems (lake project, core-only models + compiled line-protocol driver)"},
         {"name": "extract", "path": "extract", "serves_properties": sorted(PROPS), "kind_free_text": "go/ast translator regenerating lean/SioVerif/Gen/Consts.lean from /repo on every run"},
         {"name": "harness", "path": "harness", "serves_properties": sorted(PROPS), "kind_free_text": "Go correspondence harness: runs the real packages (-tags verif) and emits protocol lines that the Lean driver re-executes"},
+        {"name": "timed", "path": "timed", "serves_properties": sorted(p for p in PROPS if any(c.startswith(("timed:", "race:")) for c in PROPS[p].get("components", []))),
+         "kind_free_text": "go1.26.8 testing/synctest rigs: real client and server stacks on an in-memory network under virtual time, fault injection, forced schedules, wire taps; -race build for C16"},
+        {"name": "lockgraph", "path": "lockgraph", "serves_properties": sorted(p for p in PROPS if PROPS[p].get("lockgraph")),
+         "kind_free_text": "go/ssa + call-graph translator regenerating lean/SioVerif/Gen/Locks.lean (lock-order graph) from /repo on every run"},
     ],
     "checks": [],
     "notes": "Single entry point ./check; see DESIGN.md. known_findings.json lists recorded defects (open) and repaired ones (fixed).",
